@@ -203,8 +203,13 @@ func (n *Node) Close() {
 	if n.LogDB != nil {
 		// not waited for: database/sql blocks in Close while a log writer's transaction is still open
 		// (a failed log write leaves one behind: commitBlock only logs "failed to write logs")
-		dir := n.logDir
-		go func(l *logdb.LogDB) { l.Close(); os.RemoveAll(dir) }(n.LogDB)
+		done := make(chan struct{})
+		go func(l *logdb.LogDB) { l.Close(); close(done) }(n.LogDB)
+		select {
+		case <-done:
+		case <-time.After(2 * time.Second):
+		}
+		os.RemoveAll(n.logDir)
 	}
 	n.DB.Close()
 }
